@@ -6,29 +6,6 @@ use crate::{
 };
 use std::sync::Arc;
 
-/// a child (an act of the step, a step of a catch or of a timeout rule) is followed by the next
-/// one of its list, which runs beneath this task as well: the child is done when its whole
-/// chain is done
-fn is_chain_completed(child: &Arc<Task>) -> bool {
-    let mut cur = child.clone();
-    loop {
-        if !cur.state().is_completed() {
-            return false;
-        }
-        let Some(next) = cur.node.next().upgrade() else {
-            return true;
-        };
-        match cur
-            .children()
-            .into_iter()
-            .find(|t| t.node.id() == next.id())
-        {
-            Some(t) => cur = t,
-            None => return true,
-        }
-    }
-}
-
 /// an explicit `next` may lead out of the branch (and the steps around it) that the step belongs
 /// to; those tasks are not returned to: close them and what is still open beneath them
 fn leave_enclosing_tasks(ctx: &Context, task: &Arc<Task>, next: &Arc<Node>) -> Result<()> {
@@ -117,7 +94,7 @@ impl ActTask for Step {
                     task.exec(ctx)?;
                     is_next = true;
                 }
-                if is_chain_completed(task) {
+                if task.is_chain_completed() {
                     count += 1;
                 }
             }
@@ -159,7 +136,7 @@ impl ActTask for Step {
                     task.exec(ctx)?;
                     return Ok(false);
                 }
-                if is_chain_completed(task) {
+                if task.is_chain_completed() {
                     count += 1;
                 }
             }
